@@ -281,7 +281,7 @@ def execute(wd, sc):
             pay = Swaption(underlying_rates=rates0, deltas=deltas, strike=sc["x0"])
         else:
             pay = Ratchet(deltas=deltas, funding_gearing=1.0, funding_margin=0.0, structured_spread=0.001,
-                          structured_increment=0.002, first_rate=sc["x0"])
+                          structured_increment=0.002, first_rate=0.4 * sc["x0"])  # below delta * (rate + spread): the ratchet moves on every path
         product = Product(payoff_underlying=Libors(), payoff=pay, maturity=T, notional=spec["notional"])
     else:
         product = B.build_product(spec, model_for_cds)
@@ -523,8 +523,56 @@ def _sum_of(u):
     return float(np.sum(u))
 
 
+def _fresh_underlying(sc):
+    """a NEW underlying object of the session's product, built through its constructor (not a copy)"""
+    from rpylib.product import underlying as U
+
+    spec = sc["product"]
+    kind = spec["kind"]
+    if kind == "multi":
+        d_ = spec["names"]
+        spots0 = [sc["x0"]] * d_
+        return {"logspot": lambda: U.LogSpot(), "performances_rainbow": lambda: U.Performances(spots0),
+                "max_performances": lambda: U.MaximumOfPerformances(spots0), "mean": lambda: U.Mean(),
+                "nthspot": lambda: U.NthSpot(spec["nth"]), "indicators": lambda: U.Indicators([0.97 * sc["x0"]] * d_),
+                "coupon": lambda: U.Spot()}[spec["sub"]]()
+    if kind == "asian":
+        return U.Asian(U.Discretisation[spec["disc"]])
+    if kind == "rates":
+        return U.Libors()
+    if kind in ("cds", "ntd", "cdsk"):
+        return None
+    return U.Spot()
+
+
+def _fresh_default_monitor(add, sc, times, path, jump, log):
+    """a freshly BUILT underlying is in the identity representation, whatever other objects were priced or switched
+    before it was built: its value on the spot path equals that of a second fresh object switched to identity explicitly"""
+    from rpylib.process.process import ProcessRepresentation
+
+    try:
+        a, b = _fresh_underlying(sc), _fresh_underlying(sc)
+    except Exception:
+        return
+    if a is None:
+        return
+    spot_path = np.exp(path) if log else np.asarray(path, dtype=float)
+    spot_jump = np.exp(jump) if log else np.asarray(jump, dtype=float)
+    try:
+        with np.errstate(all="ignore"):
+            va = np.asarray(a.value(times, spot_path, spot_jump), dtype=float)  # as built, before anything is switched
+            b.update(ProcessRepresentation.IDENDITY)
+            vb = np.asarray(b.value(times, spot_path, spot_jump), dtype=float)
+    except Exception:
+        return
+    if va.shape != vb.shape or not np.allclose(va, vb, rtol=1e-12, atol=0.0, equal_nan=True):
+        add(f"C17.history|a newly built underlying does not start in the identity representation: it gives another value than one switched to identity explicitly|underlying={type(a).__name__}",
+            {"as_built": np.ravel(va).tolist()[:3], "switched_to_identity": np.ravel(vb).tolist()[:3]})
+
+
 def _monitors(add, sc, pristine, rep, times, path, jump, base, log):
     """static identities on one produced path, with fresh products (secondary: coverage = the paths produced)"""
+    _fresh_default_monitor(add, sc, times, path, jump, log)
     from rpylib.process.process import ProcessRepresentation
     from rpylib.product.payoff import Vanilla, PayoffType, Forward, Digital, CallSpread, Butterfly, Barrier, BarrierType
     from rpylib.product.product import Product
